@@ -266,6 +266,30 @@ def hashify(vm, rng):
     return vm
 
 
+# --------------------------------------------------------------------------- VMX: characters only str.splitlines() treats as line ends
+
+LINESEP_ONLY = ["\x0b", "\x0c", "\x1c", "\x1d", "\x1e", "\x85", "\u2028", "\u2029"]
+
+
+def linesep(vm, rng, k):
+    """-> a copy of the VM whose hard-disk file names carry, in the middle, a character that `str.splitlines()` treats as a line
+    end but `split("\\n")` does not (VT, FF, FS, GS, RS, NEL, LS, PS: ordinary data inside a VMX value); in every second name the
+    character is followed by text that looks like another assignment. Rendered as VMX only (most of them are not XML characters)."""
+    vm = dict(vm, devices=[dict(d) for d in vm["devices"]], controllers=list(vm["controllers"]))
+    if not [d for d in vm["devices"] if d["kind"] == "disk" and d["file"]]:
+        vm["devices"].append({"cls": "scsi", "bus": 3, "unit": 30, "kind": "disk", "file": "data"})
+        if not any(c["cls"] == "scsi" and c["bus"] == 3 for c in vm["controllers"]):
+            vm["controllers"].append({"cls": "scsi", "bus": 3, "props": [["present", "TRUE"]]})
+    n = 0
+    for d in vm["devices"]:
+        if d["kind"] == "disk" and d["file"]:
+            ch = LINESEP_ONLY[(k + n) % len(LINESEP_ONLY)]
+            tail = "scsi0:%d.fileName = ghost%d.vmdk" % (9 + n, n) if n % 2 else "Disk%d.vmdk" % n
+            d["file"] = d["file"] + ch + tail
+            n += 1
+    return vm
+
+
 # --------------------------------------------------------------------------- VMX: keys that are present but empty
 
 def emptytype(vm, rng, k):
@@ -404,7 +428,8 @@ def generate(seed, tier):
                 variant = "nested" if rng.random() < 0.4 else None
             if fmt == "ovf":                                  # every run: disk ids that are other files' ids, both HostResource forms
                 variant = "crossed" if i % 4 == 2 or rng.random() < 0.15 else None
-            recipe = {"vm": vm, "fmt": fmt, "rseed": rng.getrandbits(32), "variant": variant}
+            vmf = linesep(vm, random.Random(f"C18/linesep/{seed}/{i}"), i // 10) if fmt == "vmx" and i % 10 == 7 else vm
+            recipe = {"vm": vmf, "fmt": fmt, "rseed": rng.getrandbits(32), "variant": variant}
             qs = _render(recipe)[3]
             cases.append({"id": f"{fmt}{i}", "recipe": recipe, "queries": ["disks"] + (["dict"] + qs if fmt == "vmx" else []), "hist": gen_history(rng)})
     return cases
@@ -578,7 +603,8 @@ def search(seed, broken, budget):
         vm = G.gen_vm(rng, "thorough")
         for fmt in FMTS:
             variant = {"vmx": "reassign", "vbox": "nested" if i % 2 else None, "ovf": "crossed" if i % 2 else None}.get(fmt)
-            recipe = {"vm": vm, "fmt": fmt, "rseed": rng.getrandbits(32), "variant": variant}
+            vmf = linesep(vm, random.Random(f"C18/linesep/{seed}/{i}"), i // 10) if fmt == "vmx" and i % 10 == 7 else vm
+            recipe = {"vm": vmf, "fmt": fmt, "rseed": rng.getrandbits(32), "variant": variant}
             qs = _render(recipe)[3]
             cases.append({"id": f"s{fmt}{i}", "recipe": recipe, "queries": ["disks"] + (["dict"] + qs if fmt == "vmx" else []), "hist": gen_history(rng)})
     return cases
